@@ -88,6 +88,12 @@ def run_prop(ctx, prop, rule, min_cells=None, require=None):
         "causality_blur_measured_ns": blurs,
         "c_library": dict(info, vectors=n3, sanitizers="clang ASan+UBSan, -fno-sanitize-recover=all, canaries around result structs"),
     }
+    if prop == "C14":
+        _mv, _ms = client.run_mt(ctx, "C14", 2.0 if q else 20.0)
+        viol += _mv
+        coverage["multi_threaded_c_client"] = _ms
+        if any("inconclusive" in str(v) or str(v).startswith("exit ") for v in _ms.values()) and not inconclusive:
+            inconclusive = "multi-threaded C client scenario did not complete: %s" % _ms
     finish(ctx, coverage, viol, inconclusive, assumptions=[
         "virtual clock: the harness executables define clock_gettime themselves, so the public now() is evaluated at chosen (realtime, monotonic) readings",
         "f64 evaluation error of the drift product is tolerated up to 2^-50 relative (0 ns for inflations below 2^50 ns)"])
